@@ -23,9 +23,11 @@ SWEEP_G = {"src": ["z"], "tgt": ["t"], "ids": ["i1"], "vars": [1, 2], "gated": [
 # router sweep: the same small edge set once per further router adapter (name -> adapter kind)
 # (a ripple chain is not an account-based destination, so the ripple sweep has two plain destinations)
 SWEEP_R = {"src": ["s"], "tgt": ["t", "w"], "ids": ["i1", "i2"], "vars": [1, 2], "gated": [], "kinds": {"s": "r", "w": "t"}}
-SWEEPS = [("CrossChain_gen_router.cfg", dict(SWEEP, kinds={"s": k})) for k in ("h", "e")] + \
+# BTC: the repository's testnet3 fixture; variants 1..3 = plain / witness serialisations of the SAME deposit (same txid)
+BTC = {"src": ["c"], "tgt": ["t"], "ids": ["i1"], "vars": [1, 2, 3], "gated": []}
+SWEEPS = [("CrossChain_gen_btc.cfg", BTC)] + [("CrossChain_gen_router.cfg", dict(SWEEP, kinds={"s": k})) for k in ("h", "e")] + \
          [("CrossChain_gen_router_r.cfg", SWEEP_R), ("CrossChain_gen_router_gated.cfg", dict(SWEEP_G, kinds={"z": "y"}))]
-KIND = {"v": "vote", "r": "ripple", "b": "bsc", "y": "bytom", "g": "hsc", "h": "heco", "e": "eth", "t": "eth"}
+KIND = {"c": "btc", "v": "vote", "r": "ripple", "b": "bsc", "y": "bytom", "g": "hsc", "h": "heco", "e": "eth", "t": "eth"}
 GEN = {
     "CrossChain_gen_quick.cfg": {"src": ["v", "b"], "tgt": ["v", "t"], "ids": ["i1", "i2"], "vars": [1, 2], "gated": []},
     "CrossChain_gen_gate.cfg": {"src": ["g"], "tgt": ["t"], "ids": ["i1"], "vars": [1], "gated": ["g"]},
@@ -33,8 +35,8 @@ GEN = {
     # relay transactions: two imports through NativeCall in one transaction (own leaf first / second error ignored)
     "CrossChain_gen_relay.cfg": {"src": ["v", "b"], "tgt": ["t", "w"], "ids": ["i1", "i2"], "vars": [1], "gated": [], "kinds": {"w": "t"}},
 }
-COVERED = ["vote", "ripple", "eth (Ethash seal through the verif seal hook)", "bsc", "heco", "hsc", "bytom"]
-UNCOVERED = ["btc", "ont", "neo", "neo3", "neo3legacy", "cosmos", "quorum", "zilliqa", "zilliqalegacy", "msc", "okex", "polygon",
+COVERED = ["btc (testnet3 fixture: one deposit, plain and witness serialisations)", "vote", "ripple", "eth (Ethash seal through the verif seal hook)", "bsc", "heco", "hsc", "bytom"]
+UNCOVERED = ["ont", "neo", "neo3", "neo3legacy", "cosmos", "quorum", "zilliqa", "zilliqalegacy", "msc", "okex", "polygon",
              "pixiechain", "starcoin", "harmony"]
 
 
@@ -160,6 +162,7 @@ def run(ctx, pid):
     gov_fail = [e for e in events if e["ev"] in ("register", "quit") and e.get("fail")]
     if gov_fail:
         ctx.fail("side-chain register/quit failed in the recorded run (environment, not this property): %s" % gov_fail[0])
+    events += ctx.driver(b, ["xc-record", json.dumps(BTC), "4" if q else "20", "40"], timeout=3000)   # btc histories
     acc = sum(1 for e in events if e["ev"] == "import" and e["acc"])
     if acc < n * 3:
         ctx.fail("recorded histories contain only %d accepted imports" % acc)
@@ -170,7 +173,7 @@ def run(ctx, pid):
         while start > 0 and events[start]["ev"] != "reset":
             start -= 1
         ctx.violation("trace:" + key, {"event_index": idx, "event": events[idx] if idx is not None else None,
-                      "previous": events[idx - 1] if idx else None}, replay={"kind": "xc-trace", "cfg": rcfg, "events": events[start:idx + 1]})
+                      "previous": events[idx - 1] if idx else None}, replay={"kind": "xc-trace", "cfg": BTC if "c" in events[start]["reg"] else rcfg, "events": events[start:idx + 1]})
     else:
         ctx.cov["traces_validated_against_impl"] += n
     ctx.sample({"recorded_events": [_strip(e) for e in events[1:3]], "accepted_imports_recorded": acc})
